@@ -65,9 +65,7 @@ def judge(run, pid, results, kind, also=()):
                               {"type": "scenario", "kind": kind, "cmd": cmd, "k": ev.get("k"), "depth": (ctx or ev).get("D")})
             else:
                 other[prop] = other.get(prop, 0) + 1
-                if sum(other.values()) <= 3:
-                    ev = lines[line - 1]
-                    log("  (other property) %s %s %s | event %s k=%s cmd=%s" % (prop, code, str(detail)[:300], ev.get("ev"), ev.get("k"), ev.get("cmd")))
+                run.foreign(prop, code, detail)
     if other:
         log("conjuncts of other properties failed in the same trace (not judged here): %s" % other)
     ec = run.cov.setdefault("event_counts", {})
